@@ -513,6 +513,48 @@ class ExternalVarsVisitor(ast.NodeVisitor):
             )
 
 
+    def visit_Attribute(self, node: ast.Attribute) -> Any:
+        # A variable of an accepted module read through the module: conf.VAR, pkg.conf.VAR
+        parts = _attribute_chain(node)
+        if (
+            parts is None
+            or not isinstance(node.ctx, ast.Load)
+            or parts[0] in self._local_vars
+            or not isinstance(self._start_mod.__dict__.get(parts[0]), ModuleType)
+        ):
+            self.generic_visit(node)
+            return
+        local_dep_path = LocalDepPath(PurePosixPath("/".join(parts)))
+        if local_dep_path not in self.vars and local_dep_path not in self._rejected_paths:
+            res: ObjectRetrievalType = ObjectRetrieval.retrieve_object(
+                local_dep_path, self._start_mod, self._gctx
+            )
+            if (
+                isinstance(res, AuthorizedObject)
+                and not isinstance(res.object_val, (FunctionType, ModuleType))
+                and not inspect.isclass(res.object_val)
+            ):
+                sig = self._gctx.get_hash(res.resolved_path, res.object_val)
+                self.vars[local_dep_path] = ExternalDep(
+                    local_path=local_dep_path, path=res.resolved_path, sig=sig
+                )
+            else:
+                # Functions, classes and sub-modules are tracked with the calls.
+                self._rejected_paths.add(local_dep_path)
+        # The head of the chain is still visited as a name (modules that are not accepted are tracked by name).
+        self.generic_visit(node)
+
+
+def _attribute_chain(node: ast.AST) -> Optional[List[str]]:
+    # The names of a chain of attributes a.b.c, None for anything else (f().x, d[0].x)
+    if isinstance(node, ast.Name):
+        return [node.id]
+    if isinstance(node, ast.Attribute):
+        head = _attribute_chain(node.value)
+        return None if head is None else head + [node.attr]
+    return None
+
+
 class LocalVarsVisitor(ast.NodeVisitor):
     """
     A brute-force attempt to find all the variables defined in the scope of a module.
